@@ -1,4 +1,56 @@
-From Dawn Require Import Runner.Model.
-Theorem pipeline_placeholder_C05 : forall cfg, cap (init cfg) = c_limit cfg.
-Proof. reflexivity. Qed.
-Print Assumptions pipeline_placeholder_C05.
+(** C05 - Builds terminate: dependency cycles are reported, never deadlock.
+    Model: Runner/Model.v (the code as it is now: engine.check threads a visited set).  All statements are for
+    every configuration (every directed graph incl. self-loops and overlapping cycles, unknown and failing
+    targets), every schedule, every limit >= 1.  [path cfg x y] = a non-empty chain of declared dependencies,
+    [path0] its reflexive closure, [finished s] = Run has returned and every goroutine has ended. *)
+From Coq Require Import List Arith Bool.
+From Dawn Require Import Runner.Model Runner.Lemmas Runner.Core Runner.Walk Runner.Reach Runner.Term Runner.Cyc
+     Runner.Proofs_C05 Runner.Examples.
+
+Theorem deadlock_free : forall cfg s, 1 <= c_limit cfg -> reachable cfg s -> finished s = false ->
+  exists t, step cfg s t <> None.
+Proof. exact Proofs_C05.deadlock_free. Qed.
+Print Assumptions deadlock_free.
+
+Theorem run_not_returned_progress : forall cfg s, 1 <= c_limit cfg -> reachable cfg s -> main_done s = false ->
+  exists t, step cfg s t <> None.
+Proof. exact Proofs_C05.run_not_returned_progress. Qed.
+Print Assumptions run_not_returned_progress.
+
+Theorem terminates : forall cfg sched s, run cfg (init cfg) sched = Some s -> length sched <= bound cfg.
+Proof. exact Term.terminates. Qed.
+Print Assumptions terminates.
+
+Theorem walk_bounded : forall cfg s l t, reachable cfg s -> thr s l = Some t ->
+  NoDup (t_seen t) /\ length (t_seen t) <= length (labels cfg).
+Proof. exact Reach.walk_bounded. Qed.
+Print Assumptions walk_bounded.
+
+Theorem no_false_cycle : forall cfg s l t, reachable cfg s -> thr s l = Some t ->
+  t_pc t = PCycle \/ In (Failed ECyclic) (t_res t) ->
+  path cfg l l /\ path0 cfg (c_root cfg) l.
+Proof. exact Reach.no_false_cycle. Qed.
+Print Assumptions no_false_cycle.
+
+Theorem acyclic_never_cyclic : forall cfg s l t, acyclic cfg -> reachable cfg s -> thr s l = Some t ->
+  t_pc t <> PCycle /\ ~ In (Failed ECyclic) (t_res t) /\ (forall x, st s x <> Failed ECyclic).
+Proof. exact Reach.acyclic_never_cyclic. Qed.
+Print Assumptions acyclic_never_cyclic.
+
+Theorem cyclic_build_fails : forall cfg s r, reachable cfg s -> has_cycle cfg -> mainpc s = MDone r ->
+  exists e, r = Failed e.
+Proof. exact Cyc.cyclic_build_fails. Qed.
+Print Assumptions cyclic_build_fails.
+
+Theorem cycle_reported : forall cfg s, reachable cfg s -> has_cycle cfg -> is_final (st s (c_root cfg)) = true ->
+  exists l t, thr s l = Some t /\ In (Failed ECyclic) (t_res t).
+Proof. exact Cyc.cycle_reported. Qed.
+Print Assumptions cycle_reported.
+
+(* non-vacuity: a cyclic configuration with limit 1 and a schedule that ends quiescent with the root Failed and a
+   Cyclic result; exhaustive explorations (tests) are in Runner/Examples.v *)
+Example cycle2_has_failing_schedule :
+  exists sched s, run (cycle2 1) (init (cycle2 1)) sched = Some s /\ finished s = true /\
+                  st s 0 = Failed EDepFailed /\ mainpc s = MDone (Failed EDepFailed) /\ has_cyc s 0 = true /\
+                  cap s = 1.
+Proof. exact Examples.cycle2_has_failing_schedule. Qed.
